@@ -37,6 +37,7 @@ func findMatches(insts []bytecode.SearchInstruction, all bool, skip int, take in
 		currentState := CreateState(filename, reader, fileOffset, lineNumber, columnNumber)
 		for currentState.status == INPROCESS {
 			inst := insts[currentState.programCounter]
+			verifStep(inst, currentState)
 			currentState = matchInstruction(inst, currentState)
 			// fmt.Printf("PC: %d INST: %+v STATE: %+v\n", currentState.programCounter, inst, currentState)
 			if currentState.status == INPROCESS && currentState.programCounter >= len(insts) {
